@@ -37,7 +37,19 @@ pub(crate) fn apply_file_system_operations(
 ) -> LocationFreeDiagnosticResult<usize> {
     let mut count = 0;
 
+    #[cfg(feature = "isographlabs_isograph_verif")]
+    let mut verif_operation_index = 0usize;
+
     for operation in operations {
+        #[cfg(feature = "isographlabs_isograph_verif")]
+        {
+            if let Some(diagnostic) =
+                verif_fault::before_operation(verif_operation_index, operation, artifacts)
+            {
+                return Err(diagnostic);
+            }
+            verif_operation_index += 1;
+        }
         match operation {
             FileSystemOperation::DeleteDirectory(path) => {
                 if path.exists() {
@@ -95,4 +107,78 @@ pub fn unable_to_do_something_at_path_diagnostic(
         \nReason: {message}"
     )
     .into()
+}
+
+/// Verification hook: make the k-th file system operation fail the way an `io::Error` would
+/// (optionally after a truncated write). Thread-local, off unless a plan is set.
+#[cfg(feature = "isographlabs_isograph_verif")]
+pub mod verif_fault {
+    use std::cell::{Cell, RefCell};
+
+    use common_lang_types::{ArtifactPathAndContent, FileSystemOperation, LocationFreeDiagnostic};
+
+    #[derive(Clone, Copy, Debug, PartialEq, Eq)]
+    pub enum FaultKind {
+        /// The operation fails before it has any effect.
+        ErrorBefore,
+        /// A `WriteFile` writes only the first half of its content and then fails; other
+        /// operations fail before having any effect.
+        TruncatedWrite,
+    }
+
+    #[derive(Clone, Copy, Debug, PartialEq, Eq)]
+    pub struct FaultPlan {
+        pub fail_at_operation: usize,
+        pub kind: FaultKind,
+    }
+
+    thread_local! {
+        static PLAN: RefCell<Option<FaultPlan>> = const { RefCell::new(None) };
+        static SEEN: Cell<usize> = const { Cell::new(0) };
+    }
+
+    /// Sets (or clears) the plan for the next call of `apply_file_system_operations` on this
+    /// thread. The plan is consumed when it fires.
+    pub fn set_fault_plan(plan: Option<FaultPlan>) {
+        PLAN.with(|p| *p.borrow_mut() = plan);
+        SEEN.with(|s| s.set(0));
+    }
+
+    /// Number of operations started by `apply_file_system_operations` on this thread since the
+    /// last `set_fault_plan`.
+    pub fn operations_seen() -> usize {
+        SEEN.with(|s| s.get())
+    }
+
+    pub(crate) fn before_operation(
+        index: usize,
+        operation: &FileSystemOperation,
+        artifacts: &[ArtifactPathAndContent],
+    ) -> Option<LocationFreeDiagnostic> {
+        SEEN.with(|s| s.set(s.get() + 1));
+        let plan = PLAN.with(|p| *p.borrow())?;
+        if plan.fail_at_operation != index {
+            return None;
+        }
+        PLAN.with(|p| *p.borrow_mut() = None);
+        let path = match operation {
+            FileSystemOperation::DeleteDirectory(path)
+            | FileSystemOperation::CreateDirectory(path)
+            | FileSystemOperation::DeleteFile(path) => path,
+            FileSystemOperation::WriteFile(path, content) => {
+                if plan.kind == FaultKind::TruncatedWrite
+                    && let Some(artifact) = artifacts.get(content.idx)
+                {
+                    let bytes = artifact.file_content.as_bytes();
+                    let _ = std::fs::write(path, &bytes[..bytes.len() / 2]);
+                }
+                path
+            }
+        };
+        Some(super::unable_to_do_something_at_path_diagnostic(
+            path,
+            "injected fault",
+            "perform file system operation",
+        ))
+    }
 }
